@@ -29,11 +29,14 @@ def collect_retired_pair():
     return dict(name="collect_retired", entry="h_collect_retired", harness="harness/page_free.c", enforce="_mi_heap_collect_retired", label="P", functions=["_mi_heap_collect_retired"], timeout=600, unwind=80, objbits=10,
                 loops="loops/collect_retired.json", need_ids=["loop_invariant_step"], replace=["_mi_page_free/c_page_free_rec"], unwindset={"h_collect_retired.0": 80})
 def first_update_pairs():
-    # one run per queue bin (literal): bins 1..33 are the small size classes (block size <= 1024) that have table entries, 34 and 74 (full) must leave the table alone
+    # one run per queue bin (literal).  Small bins = the bins in the range of the real _mi_bin for sizes up to MI_SMALL_SIZE_MAX (computed natively on every run:
+    # with MI_ALIGN2W the odd word-size bins 3, 5, 7 are never used -- no page ever has such a block size, so their queues never change); plus the first
+    # non-small bin, the huge and the full queue, which must leave the table alone.
+    small = common.used_small_bins()
     out = []
-    for qb in list(range(1, 35)) + [73, 74]:
+    for qb in small + [max(small) + 1, 73, 74]:
         out.append(dict(name="first_update_bin%d" % qb, entry="h_first_update", harness="harness/first_update.c", enforce="mi_heap_queue_first_update", label="PC", functions=["mi_heap_queue_first_update"],
-                        timeout=600, unwind=132, objbits=10, replace=[], defs=["-DVC_QBIN=%d" % qb], tier=("quick" if qb in (1, 2, 9, 20, 33, 34) else "thorough")))
+                        timeout=600, unwind=132, objbits=10, replace=[], defs=["-DVC_QBIN=%d" % qb], tier=("quick" if qb in (small[0], small[1], 9, 20, max(small), max(small) + 1) else "thorough")))
     return out
 def page_abandon_pair():
     return dict(name="page_abandon", entry="h_page_abandon", harness="harness/page_free.c", enforce="_mi_page_abandon", label="P", functions=["_mi_page_abandon"], timeout=300, unwind=20, objbits=10,
